@@ -77,7 +77,7 @@ def shard(p):
         else:
             x, forced = gen_x(rng), None
             if getattr(x, "_boundary", False) or rng.random() < 0.02:
-                pending = [(x, f) for f in ("floor", "ceil", "round")]      # boundary-ish values go through all three functions
+                pending = [(x, f) for f in ("floor", "ceil", "round", "round2")]      # boundary-ish values go through all functions
         unit = rng.choice(UNITS)
         xs = spell(rng, x)
         if unit and "/" in xs:
